@@ -442,9 +442,11 @@ Lemma keeps_closemapped : keeps_id (fun c => if c_mapped c then c_close c else c
 Proof. intros c. destruct (c_mapped c); reflexivity. Qed.
 
 (* ---------- the invariant ---------- *)
+(* the data clauses are about connections that exist from the start (c_late = false): a connection
+   opened later has missed the frames that arrived for its id before (dropped by design, I5) *)
 Definition conn_ok (done : list frame) (rcv : list (list N)) (rd : bool) (c : conn_st) : Prop :=
-  (exists more, queue_of (c_id c) done = rcv ++ c_queue c ++ more) /\
-  (rd = false -> c_mapped c = true -> queue_of (c_id c) done = rcv ++ c_queue c) /\
+  (c_late c = false -> exists more, queue_of (c_id c) done = rcv ++ c_queue c ++ more) /\
+  (c_late c = false -> rd = false -> c_mapped c = true -> queue_of (c_id c) done = rcv ++ c_queue c) /\
   (c_mapped c = false -> c_closed c = true).
 
 Record Inv (all : list frame) (full : bool) (s : mux_st) (tr : list (event * result)) : Prop := {
@@ -459,12 +461,6 @@ Record Inv (all : list frame) (full : bool) (s : mux_st) (tr : list (event * res
 Lemma received_app id a b : received id (a ++ b) = received id a ++ received id b.
 Proof. unfold received. apply flat_map_app. Qed.
 
-Lemma received_other id e o : (forall p i pk, e = EvRead i pk -> o = RData p -> i <> id) ->
-  received id [(e, o)] = [].
-Proof.
-  intros H. unfold received. cbn. destruct e; try reflexivity. destruct o; try reflexivity.
-  destruct (N.eqb_spec id0 id); [|reflexivity]. exfalso. eapply H; eauto.
-Qed.
 
 (* the trace grows by an entry that delivers nothing *)
 Lemma Inv_trace all full s tr e o : (forall id, received id [(e, o)] = []) ->
@@ -475,6 +471,17 @@ Proof.
   - destruct H5 as (done&rest&m&Ha&Hb&Hc&Hd). exists done, rest, m.
     split; [exact Ha|]. split; [exact Hb|]. split; [exact Hc|].
     intros c Hin. rewrite received_app, Hr, app_nil_r. auto.
+Qed.
+
+(* the invariant sees the trace only through [received] *)
+Lemma Inv_received_ext all full s tr1 tr2 : (forall id, received id tr1 = received id tr2) ->
+  Inv all full s tr1 -> Inv all full s tr2.
+Proof.
+  intros Hr [H1 H2 H3 H4 H5]. constructor; auto.
+  - intros id Hid. rewrite <- Hr. auto.
+  - destruct H5 as (done&rest&m&Ha&Hb&Hc&Hd). exists done, rest, m.
+    split; [exact Ha|]. split; [exact Hb|]. split; [exact Hc|].
+    intros c Hin. rewrite <- Hr. auto.
 Qed.
 
 Lemma Inv_latch all full s tr e : Inv all full s tr -> Inv all full (latch e s) tr.
@@ -492,7 +499,7 @@ Proof.
   intros He [H1 H2 H3 H4 H5]. constructor; cbn; auto.
   destruct H5 as (done&rest&m&Ha&Hb&Hc&Hd). exists done, rest, m.
   split; [exact Ha|]. split; [exact Hb|]. split; [exact Hc|].
-  intros c Hin. destruct (Hd c Hin) as [Hx [Hy Hz]]. split; [exact Hx|]. split; [discriminate|exact Hz].
+  intros c Hin. destruct (Hd c Hin) as [Hx [Hy Hz]]. split; [exact Hx|]. split; [intros _; discriminate|exact Hz].
 Qed.
 
 Lemma Inv_do_close all full s tr : Inv all full s tr -> Inv all full (do_close s) tr.
@@ -510,7 +517,7 @@ Proof.
     split; [exact Ha|]. split; [exact Hb|]. split; [exact Hc|].
     intros c Hin. apply in_map_iff in Hin. destruct Hin as [c0 [<- Hc0]]. pose proof (Hd c0 Hc0) as Hok.
     destruct (c_mapped c0) eqn:Em; [|exact Hok]. destruct Hok as [Hx [Hy Hz]].
-    split; [exact Hx|]. split; [|reflexivity]. cbn. intros Hrd _. apply Hy; [exact Hrd|exact Em].
+    split; [exact Hx|]. split; [|reflexivity]. cbn. intros Hl Hrd _. apply Hy; [exact Hl|exact Hrd|exact Em].
 Qed.
 
 Lemma fail_reader_eq e s : fail_reader e s = do_close (set_reader_done true (latch e s)).
@@ -544,7 +551,7 @@ Proof.
     split; [exact Ha|]. split; [exact Hb|]. split; [exact Hc|].
     intros c Hin. apply In_upd_conn in Hin. destruct Hin as [c0 [Hc0 ->]]. pose proof (Hd c0 Hc0) as Hok.
     destruct (c_id c0 =? id); [|exact Hok]. destruct Hok as [Hx [Hy Hz]].
-    split; [exact Hx|]. split; [|reflexivity]. cbn. intros _ Hf. discriminate.
+    split; [exact Hx|]. split; [|reflexivity]. cbn. intros _ _ Hf. discriminate.
 Qed.
 
 Lemma queue_of_snoc id done f :
@@ -585,9 +592,9 @@ Proof.
         intros c Hin. apply In_upd_conn in Hin. destruct Hin as [c1 [Hc1 ->]]. destruct (Hd c1 Hc1) as [Hx [Hy Hz]].
         destruct (N.eqb_spec (c_id c1) (fst f)) as [He|Hne]; cbn [c_push c_id c_queue c_mapped c_closed].
         -- assert (c1 = c0) by (apply (nodup_conn (m_conns s)); auto; congruence). subst c1.
-           assert (Hq : queue_of (c_id c0) (done ++ [f]) = received (c_id c0) tr ++ c_queue c0 ++ [snd f]).
-           { rewrite queue_of_snoc, <- He, N.eqb_refl, (Hy Erd Hmap0), app_assoc. reflexivity. }
-           split; [exists []; rewrite app_nil_r; exact Hq|]. split; [intros _ _; exact Hq|exact Hz].
+           assert (Hq : c_late c0 = false -> queue_of (c_id c0) (done ++ [f]) = received (c_id c0) tr ++ c_queue c0 ++ [snd f]).
+           { intros Hl. rewrite queue_of_snoc, <- He, N.eqb_refl, (Hy Hl Erd Hmap0), app_assoc. reflexivity. }
+           split; [intros Hl; exists []; rewrite app_nil_r; exact (Hq Hl)|]. split; [intros Hl _ _; exact (Hq Hl)|exact Hz].
         -- assert (Hq : queue_of (c_id c1) (done ++ [f]) = queue_of (c_id c1) done).
            { rewrite queue_of_snoc. destruct (N.eqb_spec (fst f) (c_id c1)); [congruence|]. now rewrite app_nil_r. }
            unfold conn_ok. rewrite Hq. split; [exact Hx|split; [exact Hy|exact Hz]].
@@ -605,16 +612,16 @@ Proof.
         replace (m_conns (set_reader_done true (match m_err s with Some _ => set_rx rest' s | None => set_err (Some EErr) (set_rx rest' s) end))) with (m_conns s) by (destruct (m_err s); reflexivity).
         replace (m_reader_done (set_reader_done true (match m_err s with Some _ => set_rx rest' s | None => set_err (Some EErr) (set_rx rest' s) end))) with true by (destruct (m_err s); reflexivity).
         split; [exact Hall'|]. split; [exact Hrest'|]. split; [exact Hfull'|].
-        intros c Hin. destruct (Hd c Hin) as [Hx [Hy Hz]]. split; [|split; [discriminate|exact Hz]].
-        destruct Hx as [more Hx]. rewrite queue_of_snoc, Hx. eexists. rewrite <- !app_assoc. reflexivity.
+        intros c Hin. destruct (Hd c Hin) as [Hx [Hy Hz]]. split; [|split; [intros _; discriminate|exact Hz]].
+        intros Hl. destruct (Hx Hl) as [more Hx']. rewrite queue_of_snoc, Hx'. eexists. rewrite <- !app_assoc. reflexivity.
   - (* unknown or unmapped id: dropped *)
     pose proof (find_none _ _ Ef) as Hnone.
     constructor; cbn [m_conns m_err m_closed m_reader_done m_rx set_rx]; auto.
     exists (done ++ [f]), rest0, (m - length (frame_bytes f))%nat.
     split; [exact Hall'|]. split; [exact Hrest'|]. split; [exact Hfull'|].
     intros c Hin. destruct (Hd c Hin) as [Hx [Hy Hz]]. split; [|split; [|exact Hz]].
-    + destruct Hx as [more Hx]. rewrite queue_of_snoc, Hx. eexists. rewrite <- !app_assoc. reflexivity.
-    + intros Hrd Hmp. rewrite queue_of_snoc. specialize (Hnone c Hin). cbn in Hnone. rewrite Hmp, andb_true_r in Hnone.
+    + intros Hl. destruct (Hx Hl) as [more Hx']. rewrite queue_of_snoc, Hx'. eexists. rewrite <- !app_assoc. reflexivity.
+    + intros Hl Hrd Hmp. rewrite queue_of_snoc. specialize (Hnone c Hin). cbn in Hnone. rewrite Hmp, andb_true_r in Hnone.
       rewrite N.eqb_sym, Hnone, app_nil_r. auto.
 Qed.
 
@@ -652,10 +659,10 @@ Proof.
       intros c' Hin. apply In_upd_conn in Hin. destruct Hin as [c1 [Hc1 ->]]. pose proof (Hd c1 Hc1) as Hok.
       destruct (N.eqb_spec (c_id c1) id) as [He|Hne].
       + assert (c1 = c) by (apply (nodup_conn (m_conns s)); auto; congruence). subst c1.
-        destruct Hok as [[more Hx] [Hy Hz]]. unfold conn_ok. cbn [c_set_queue c_id c_queue c_mapped c_closed].
+        destruct Hok as [Hx [Hy Hz]]. unfold conn_ok. cbn [c_set_queue c_id c_queue c_mapped c_closed c_late].
         rewrite received_app, received_read, Hcid, N.eqb_refl. rewrite Hcid in *. rewrite Hq in *.
-        split; [exists more; rewrite Hx, <- !app_assoc; reflexivity|]. split; [|exact Hz].
-        intros Hrd Hmp. rewrite (Hy Hrd Hmp), <- !app_assoc. reflexivity.
+        split; [intros Hl; destruct (Hx Hl) as [more Hx']; exists more; rewrite Hx', <- !app_assoc; reflexivity|]. split; [|exact Hz].
+        intros Hl Hrd Hmp. rewrite (Hy Hl Hrd Hmp), <- !app_assoc. reflexivity.
       + rewrite received_app, received_read. destruct (N.eqb_spec id (c_id c1)); [congruence|].
         rewrite app_nil_r. exact Hok. }
   destruct (c_queue c) as [|p q] eqn:Eq.
@@ -683,12 +690,89 @@ Proof.
   - apply Inv_do_close, Inv_latch, Inv_set_tx, HI.
 Qed.
 
+(* ---------- Read with an explicit buffer: the state moves as for Read ---------- *)
+Lemma read_buf_fst id pk bl bc s : fst (read_buf_step id pk bl bc s) = fst (read_step id pk s).
+Proof. unfold read_buf_step. destruct (read_step id pk s) as [s1 r]. destruct r; reflexivity. Qed.
+
+Lemma read_buf_snd id pk bl bc s :
+  snd (read_buf_step id pk bl bc s) =
+  match snd (read_step id pk s) with RData p => RBuf p (deliver bl bc p) | r => r end.
+Proof. unfold read_buf_step. destruct (read_step id pk s) as [s1 r]. destruct r; reflexivity. Qed.
+
+Lemma read_step_not_buf id pk s p o : snd (read_step id pk s) <> RBuf p o.
+Proof.
+  unfold read_step. destruct (find_conn id (m_conns s)); [|discriminate].
+  destruct (c_queue c); [destruct (c_closed c)|destruct (c_closed c && negb pk)]; try destruct (mux_error s); discriminate.
+Qed.
+
+Lemma received_readb id i pk bl bc s :
+  received id [(EvReadB i pk bl bc, snd (read_buf_step i pk bl bc s))] = received id [(EvRead i pk, snd (read_step i pk s))].
+Proof.
+  rewrite read_buf_snd. destruct (snd (read_step i pk s)) eqn:E; try reflexivity.
+  exfalso. eapply read_step_not_buf; eauto.
+Qed.
+
+Lemma Inv_readb all full s tr id pick bl bc s' o :
+  read_buf_step id pick bl bc s = (s', o) -> Inv all full s tr -> Inv all full s' (tr ++ [(EvReadB id pick bl bc, o)]).
+Proof.
+  intros Hstep HI.
+  assert (Hs : s' = fst (read_step id pick s)) by (rewrite <- (read_buf_fst id pick bl bc), Hstep; reflexivity).
+  assert (Ho : o = snd (read_buf_step id pick bl bc s)) by (rewrite Hstep; reflexivity).
+  subst s' o. apply (Inv_received_ext all full _ (tr ++ [(EvRead id pick, snd (read_step id pick s))])).
+  - intros i. rewrite !received_app, received_readb. reflexivity.
+  - eapply Inv_read; [|exact HI]. destruct (read_step id pick s); reflexivity.
+Qed.
+
+(* ---------- Open at any moment ---------- *)
+Lemma find_conn_app i a b : find_conn i (a ++ b) = match find_conn i a with Some c => Some c | None => find_conn i b end.
+Proof. unfold find_conn. induction a as [|c r IH]; [reflexivity|]. cbn [app find]. destruct (c_id c =? i); [reflexivity|exact IH]. Qed.
+
+Lemma find_conn_None_notin i cs : find_conn i cs = None -> ~ In i (map c_id cs).
+Proof.
+  unfold find_conn. intros H Hin. apply in_map_iff in Hin. destruct Hin as [c [Hc Hin]].
+  apply (find_none _ _ H) in Hin. rewrite Hc, N.eqb_refl in Hin. discriminate.
+Qed.
+
+Lemma NoDup_snoc {A} (l : list A) x : NoDup l -> ~ In x l -> NoDup (l ++ [x]).
+Proof.
+  intros Hnd Hx. induction Hnd as [|y r Hy Hr IH]; cbn; [constructor; [intros []|constructor]|].
+  constructor.
+  - intros Hin. apply in_app_or in Hin. destruct Hin as [Hin|[->|[]]]; [contradiction|]. apply Hx. now left.
+  - apply IH. intros Hin. apply Hx. now right.
+Qed.
+
+Lemma Inv_open all full s tr id s' o :
+  open_step true id s = (s', o) -> Inv all full s tr -> Inv all full s' (tr ++ [(EvOpen id, o)]).
+Proof.
+  unfold open_step. intros Hstep HI.
+  assert (Ht : forall o0, Inv all full s (tr ++ [(EvOpen id, o0)])).
+  { intros o0. apply Inv_trace; [intros i; reflexivity|exact HI]. }
+  destruct (id =? reserved_conn_id); [inversion Hstep; subst; apply Ht|].
+  destruct (find_conn id (m_conns s)) as [c|] eqn:Ef.
+  { destruct (c_mapped c); inversion Hstep; subst; apply Ht. }
+  inversion Hstep; subst. clear Hstep Ht. apply Inv_trace; [intros i; reflexivity|].
+  destruct HI as [H1 H2 H3 H4 H5]. constructor; cbn [m_conns m_err m_closed m_reader_done m_rx set_conns].
+  - rewrite map_app. cbn [map c_id]. apply NoDup_snoc; [exact H1|now apply find_conn_None_notin].
+  - exact H2.
+  - intros i Hi. apply H3. rewrite find_conn_app in Hi. destruct (find_conn i (m_conns s)); [discriminate|reflexivity].
+  - intros Hcl c Hin. apply in_app_or in Hin. destruct Hin as [Hin|[<-|[]]]; [auto|]. cbn. exact Hcl.
+  - destruct H5 as (done&rest&m&Ha&Hb&Hc&Hd). exists done, rest, m.
+    split; [exact Ha|]. split; [exact Hb|]. split; [exact Hc|].
+    intros c Hin. apply in_app_or in Hin. destruct Hin as [Hin|[<-|[]]]; [auto|].
+    unfold conn_ok. cbn [c_late c_mapped]. split; [discriminate|]. split; discriminate.
+Qed.
+
+Lemma open_closes_ok : open_closes_on_closed = true.
+Proof. reflexivity. Qed.
+
 Lemma Inv_step all full mp s tr e s' o : Forall wf_frame all ->
   step_mp mp s e = (s', o) -> Inv all full s tr -> Inv all full s' (tr ++ [(e, o)]).
 Proof.
   intros Hwf Hstep HI. destruct e; cbn [step_mp] in Hstep.
   - inversion Hstep; subst. apply Inv_trace; [intros i; reflexivity|]. now apply Inv_reader.
   - eapply Inv_read; eauto.
+  - eapply Inv_readb; eauto.
+  - rewrite open_closes_ok in Hstep. eapply Inv_open; eauto.
   - eapply Inv_write; eauto.
   - inversion Hstep; subst. apply Inv_trace; [intros i; reflexivity|]. now apply Inv_do_close.
   - inversion Hstep; subst. apply Inv_trace; [intros i; reflexivity|]. now apply Inv_conn_close.
@@ -732,7 +816,7 @@ Proof.
   - discriminate.
   - exists [], all, m. split; [reflexivity|]. split; [reflexivity|]. split; [exact Hfull|].
     intros c Hin. apply in_map_iff in Hin. destruct Hin as [i [<- Hi]]. unfold conn_ok. cbn.
-    split; [exists []; reflexivity|]. split; [reflexivity|discriminate].
+    split; [intros _; exists []; reflexivity|]. split; [reflexivity|discriminate].
 Qed.
 
 (* ------------------------------------------------------------------ *)
@@ -745,16 +829,17 @@ Proof. rewrite queue_of_app. eexists; reflexivity. Qed.
 Theorem prefix_all_schedules mp ws n qlen opened evs id s tr :
   wf_mp mp = true -> wf_writes ws = true -> nodupN opened = true ->
   run_mp mp (init_mux (firstn n (trunk_mp mp ws)) qlen opened) evs = (s, tr) ->
+  late_opened id s = false ->
   prefix (received id tr ++ queue_in id s) (written_frames_mp mp id ws).
 Proof.
-  intros Hmp Hws Hnd Hrun.
+  intros Hmp Hws Hnd Hrun Hlate.
   pose proof (trunk_frames_wf mp ws Hmp Hws) as Hwf.
   pose proof (Inv_run (trunk_frames_mp mp ws) false mp Hwf evs _ [] s tr Hrun
                 (Inv_init _ false n qlen opened Hnd (fun H => False_ind _ (diff_false_true H)))) as HI.
-  cbn [app] in HI. destruct HI as [H1 H2 H3 H4 H5]. unfold queue_in.
+  cbn [app] in HI. destruct HI as [H1 H2 H3 H4 H5]. unfold queue_in. unfold late_opened in Hlate.
   destruct (find_conn id (m_conns s)) as [c|] eqn:Ef.
   - apply find_conn_In in Ef. destruct Ef as [Hc Hid]. destruct H5 as (done&rest&m&Ha&Hb&Hc'&Hd).
-    destruct (Hd c Hc) as [[more Hx] _]. rewrite Hid in Hx.
+    destruct (Hd c Hc) as [Hx0 _]. destruct (Hx0 Hlate) as [more Hx]. rewrite Hid in Hx.
     rewrite <- (queue_of_trunk mp id ws) by (now apply wf_mp_spec in Hmp). rewrite Ha.
     eapply prefix_trans; [|apply queue_of_done_prefix]. exists more. rewrite Hx, <- app_assoc. reflexivity.
   - rewrite (H3 id Ef). exists (written_frames_mp mp id ws). reflexivity.
@@ -769,18 +854,18 @@ Qed.
 Theorem complete_when_keeping_up mp ws qlen opened evs id s tr :
   wf_mp mp = true -> wf_writes ws = true -> nodupN opened = true ->
   run_mp mp (init_mux (trunk_mp mp ws) qlen opened) evs = (s, tr) ->
-  m_err s = None -> m_rx s = [] -> conn_open id s = true ->
+  m_err s = None -> m_rx s = [] -> conn_open id s = true -> late_opened id s = false ->
   received id tr ++ queue_in id s = written_frames_mp mp id ws.
 Proof.
-  intros Hmp Hws Hnd Hrun Herr Hrx Hopen.
+  intros Hmp Hws Hnd Hrun Herr Hrx Hopen Hlate.
   pose proof (trunk_frames_wf mp ws Hmp Hws) as Hwf.
   rewrite <- (firstn_all (trunk_mp mp ws)) in Hrun. unfold trunk_mp in Hrun at 1.
   pose proof (Inv_run (trunk_frames_mp mp ws) true mp Hwf evs _ [] s tr Hrun
                 (Inv_init _ true _ qlen opened Hnd (fun _ => le_n _))) as HI.
-  cbn [app] in HI. destruct HI as [H1 H2 H3 H4 H5]. unfold queue_in, conn_open in *.
+  cbn [app] in HI. destruct HI as [H1 H2 H3 H4 H5]. unfold queue_in, conn_open, late_opened in *.
   destruct (find_conn id (m_conns s)) as [c|] eqn:Ef; [|discriminate].
   apply find_conn_In in Ef. destruct Ef as [Hc Hid]. destruct H5 as (done&rest&m&Ha&Hb&Hc'&Hd).
-  destruct (Hd c Hc) as [_ [Hy Hz]]. rewrite Hid in Hy.
+  destruct (Hd c Hc) as [_ [Hy0 Hz]]. pose proof (Hy0 Hlate) as Hy. rewrite Hid in Hy.
   assert (Hrd : m_reader_done s = false).
   { destruct (m_reader_done s); [|reflexivity]. exfalso. now apply H2. }
   assert (Hmapped : c_mapped c = true).
@@ -807,16 +892,34 @@ Proof.
   cbn [set_reader_done m_err]. rewrite do_close_err. unfold latch. cbn [m_err set_rx]. now rewrite H.
 Qed.
 
+Lemma read_latched s e id pick : m_err s = Some e ->
+  m_err (fst (read_step id pick s)) = Some e /\ (forall e', snd (read_step id pick s) = RErr e' -> e' = e).
+Proof.
+  intros H. unfold read_step, mux_error. rewrite H.
+  destruct (find_conn id (m_conns s)); [|split; [exact H|discriminate]].
+  destruct (c_queue c); [destruct (c_closed c)|destruct (c_closed c && negb pick)]; cbn [fst snd];
+    (split; [exact H|]); intros e' He; congruence.
+Qed.
+
+Lemma open_step_fields closes id s :
+  let s' := fst (open_step closes id s) in
+  m_err s' = m_err s /\ m_closed s' = m_closed s /\ m_tx s' = m_tx s /\ m_tx_broken s' = m_tx_broken s /\
+  m_reader_done s' = m_reader_done s /\ m_rx s' = m_rx s.
+Proof.
+  unfold open_step. destruct (id =? reserved_conn_id); [cbn; tauto|].
+  destruct (find_conn id (m_conns s)); [destruct (c_mapped c); cbn; tauto|cbn; tauto].
+Qed.
+
 Theorem error_latched_step mp s e ev : m_err s = Some e ->
   m_err (fst (step_mp mp s ev)) = Some e /\
-  (forall id pk e', ev = EvRead id pk -> snd (step_mp mp s ev) = RErr e' -> e' = e).
+  (forall e', is_read ev = true -> snd (step_mp mp s ev) = RErr e' -> e' = e).
 Proof.
-  intros H. destruct ev; cbn [step_mp fst snd].
+  intros H. destruct ev; cbn [step_mp fst snd is_read].
   - split; [now apply reader_step_err|discriminate].
-  - unfold read_step, mux_error. rewrite H.
-    destruct (find_conn id (m_conns s)); [|split; [exact H|discriminate]].
-    destruct (c_queue c); [destruct (c_closed c)|destruct (c_closed c && negb pick)]; cbn [fst snd];
-      (split; [exact H|]); intros i pk e' _ He; congruence.
+  - destruct (read_latched s e id pick H) as [H1 H2]. split; [exact H1|]. intros e' _. apply H2.
+  - destruct (read_latched s e id pick H) as [H1 H2]. rewrite read_buf_fst, read_buf_snd. split; [exact H1|].
+    intros e' _ He. apply H2. destruct (snd (read_step id pick s)); try discriminate; exact He.
+  - destruct (open_step_fields open_closes_on_closed id s) as [-> _]. split; [exact H|discriminate].
   - split; [|discriminate]. unfold write_step.
     destruct (find_conn id (m_conns s)); [|exact H]. destruct (c_closed c); [exact H|].
     destruct (m_closed s || m_tx_broken s); [exact H|]. destruct cut; [|exact H].
@@ -832,15 +935,15 @@ Qed.
 
 Theorem error_latched_run mp : forall evs s e s' tr, m_err s = Some e -> run_mp mp s evs = (s', tr) ->
   m_err s' = Some e /\
-  (forall id pk e', In (EvRead id pk, RErr e') tr -> e' = e).
+  (forall ev e', In (ev, RErr e') tr -> is_read ev = true -> e' = e).
 Proof.
   induction evs as [|ev r IH]; intros s e s' tr H Hrun; cbn [run_mp] in Hrun.
   - inversion Hrun; subst. split; [exact H|contradiction].
   - destruct (error_latched_step mp s e ev H) as [H1 H2].
     destruct (step_mp mp s ev) as [s1 o] eqn:Es. destruct (run_mp mp s1 r) as [s2 tr2] eqn:Er.
     inversion Hrun; subst. cbn [fst snd] in *. destruct (IH _ _ _ _ H1 Er) as [H3 H4].
-    split; [exact H3|]. intros id pk e' [Heq|Hin].
-    + inversion Heq; subst. eapply H2; reflexivity.
+    split; [exact H3|]. intros ev' e' [Heq|Hin] Hr.
+    + inversion Heq; subst. eapply H2; [exact Hr|reflexivity].
     + eapply H4; eauto.
 Qed.
 
@@ -853,6 +956,9 @@ Proof.
   - unfold reader_step. destruct (m_reader_done s); [exact H|]. rewrite H. unfold latch. destruct (m_err s); exact H.
   - unfold read_step, mux_error. destruct (find_conn id (m_conns s)); [|exact H].
     destruct (c_queue c); [destruct (c_closed c)|destruct (c_closed c && negb pick)]; destruct (m_err s); exact H.
+  - rewrite read_buf_fst. unfold read_step, mux_error. destruct (find_conn id (m_conns s)); [|exact H].
+    destruct (c_queue c); [destruct (c_closed c)|destruct (c_closed c && negb pick)]; destruct (m_err s); exact H.
+  - destruct (open_step_fields open_closes_on_closed id s) as [_ [-> _]]. exact H.
   - unfold write_step. destruct (find_conn id (m_conns s)); [|exact H]. destruct (c_closed c); [exact H|].
     rewrite H. exact H.
   - unfold do_close. now rewrite H.
@@ -867,6 +973,7 @@ Theorem no_block_after_close mp ws n qlen opened evs s tr ev :
   m_closed s = true ->
   match ev, snd (step_mp mp s ev) with
   | EvRead _ _, RBlock => False
+  | EvReadB _ _ _ _, RBlock => False
   | EvWrite _ _ _, ROk => False
   | EvWrite _ _ _, RBlock => False
   | _, _ => True
@@ -877,10 +984,13 @@ Proof.
   pose proof (Inv_run (trunk_frames_mp mp ws) false mp Hwf evs _ [] s tr Hrun
                 (Inv_init _ false n qlen opened Hnd (fun H => False_ind _ (diff_false_true H)))) as HI.
   destruct HI as [_ _ _ H4 _]. specialize (H4 Hcl).
-  destruct ev; cbn [step_mp snd]; auto.
-  - unfold read_step. destruct (find_conn id (m_conns s)) as [c|] eqn:Ef; [|exact I].
+  assert (Hrd : forall id pick, snd (read_step id pick s) <> RBlock).
+  { intros id pick. unfold read_step. destruct (find_conn id (m_conns s)) as [c|] eqn:Ef; [|discriminate].
     apply find_conn_In in Ef. rewrite (H4 c (proj1 Ef)).
-    destruct (c_queue c); [|destruct (true && negb pick)]; destruct (mux_error s); exact I.
+    destruct (c_queue c); [|destruct (true && negb pick)]; destruct (mux_error s); discriminate. }
+  destruct ev; cbn [step_mp snd]; auto.
+  - specialize (Hrd id pick). destruct (snd (read_step id pick s)); try exact I. now apply Hrd.
+  - specialize (Hrd id pick). rewrite read_buf_snd. destruct (snd (read_step id pick s)); try exact I. now apply Hrd.
   - unfold write_step. destruct (find_conn id (m_conns s)) as [c|] eqn:Ef; [|exact I].
     apply find_conn_In in Ef. rewrite (H4 c (proj1 Ef)). exact I.
 Qed.
@@ -894,23 +1004,41 @@ Lemma queue_in_upd id i g s : keeps_id g ->
   end.
 Proof. intros Hg. unfold queue_in. cbn [m_conns set_conns]. rewrite find_conn_upd by exact Hg. destruct (find_conn id (m_conns s)); reflexivity. Qed.
 
+Lemma drain_read s id id0 pick :
+  queue_in id s = received id [(EvRead id0 pick, snd (read_step id0 pick s))] ++ queue_in id (fst (read_step id0 pick s)).
+Proof.
+  unfold read_step. destruct (find_conn id0 (m_conns s)) as [c|] eqn:Ef; [|reflexivity].
+  assert (Herr : forall e, queue_in id s = received id [(EvRead id0 pick, RErr e)] ++ queue_in id (fst (mux_error s))).
+  { intros e. unfold mux_error. destruct (m_err s); reflexivity. }
+  destruct (c_queue c) as [|p q] eqn:Eq.
+  + destruct (c_closed c); [|reflexivity]. specialize (Herr (snd (mux_error s))). destruct (mux_error s); exact Herr.
+  + destruct (c_closed c && negb pick).
+    * specialize (Herr (snd (mux_error s))). destruct (mux_error s); exact Herr.
+    * cbn [fst snd]. rewrite received_read, queue_in_upd by apply keeps_setq. unfold queue_in.
+      destruct (N.eqb_spec id0 id) as [->|Hne].
+      -- rewrite Ef. apply find_conn_In in Ef. rewrite (proj2 Ef), N.eqb_refl, Eq. reflexivity.
+      -- destruct (find_conn id (m_conns s)) as [c'|] eqn:Ef'; [|reflexivity].
+         apply find_conn_In in Ef'. rewrite (proj2 Ef'). destruct (N.eqb_spec id id0); [congruence|reflexivity].
+Qed.
+
+Lemma drain_open closes s id id0 :
+  queue_in id s = received id [(EvOpen id0, snd (open_step closes id0 s))] ++ queue_in id (fst (open_step closes id0 s)).
+Proof.
+  unfold open_step. destruct (id0 =? reserved_conn_id); [reflexivity|].
+  destruct (find_conn id0 (m_conns s)) as [c|] eqn:Ef; [destruct (c_mapped c); reflexivity|].
+  cbn [fst snd received flat_map app]. unfold queue_in. cbn [m_conns set_conns]. rewrite find_conn_app.
+  destruct (find_conn id (m_conns s)) eqn:Ei; [reflexivity|].
+  unfold find_conn. cbn [find c_id]. destruct (id0 =? id); reflexivity.
+Qed.
+
 Lemma drain_step mp s ev id : m_closed s = true ->
   queue_in id s = received id [(ev, snd (step_mp mp s ev))] ++ queue_in id (fst (step_mp mp s ev)).
 Proof.
   intros H. destruct ev; cbn [step_mp fst snd].
   - unfold reader_step. destruct (m_reader_done s); [reflexivity|]. rewrite H. unfold latch. destruct (m_err s); reflexivity.
-  - unfold read_step. destruct (find_conn id0 (m_conns s)) as [c|] eqn:Ef; [|reflexivity].
-    assert (Herr : forall e, queue_in id s = received id [(EvRead id0 pick, RErr e)] ++ queue_in id (fst (mux_error s))).
-    { intros e. unfold mux_error. destruct (m_err s); reflexivity. }
-    destruct (c_queue c) as [|p q] eqn:Eq.
-    + destruct (c_closed c); [|reflexivity]. specialize (Herr (snd (mux_error s))). destruct (mux_error s); exact Herr.
-    + destruct (c_closed c && negb pick).
-      * specialize (Herr (snd (mux_error s))). destruct (mux_error s); exact Herr.
-      * cbn [fst snd]. rewrite received_read, queue_in_upd by apply keeps_setq. unfold queue_in.
-        destruct (N.eqb_spec id0 id) as [->|Hne].
-        -- rewrite Ef. apply find_conn_In in Ef. rewrite (proj2 Ef), N.eqb_refl, Eq. reflexivity.
-        -- destruct (find_conn id (m_conns s)) as [c'|] eqn:Ef'; [|reflexivity].
-           apply find_conn_In in Ef'. rewrite (proj2 Ef'). destruct (N.eqb_spec id id0); [congruence|reflexivity].
+  - apply drain_read.
+  - rewrite read_buf_fst, received_readb. apply drain_read.
+  - apply drain_open.
   - unfold write_step. destruct (find_conn id0 (m_conns s)); [|reflexivity]. destruct (c_closed c); [reflexivity|].
     rewrite H. reflexivity.
   - unfold do_close. rewrite H. reflexivity.
@@ -1013,6 +1141,10 @@ Proof.
   intros Hstep HI. destruct e; cbn [step_mp] in Hstep.
   - inversion Hstep; subst. destruct (tx_reader s). (eapply TxInv_same; [ | | |exact HI]; auto).
   - pose proof (tx_read id pick s) as [H1 H2]. rewrite Hstep in H1, H2. (eapply TxInv_same; [ | | |exact HI]; auto).
+  - pose proof (tx_read id pick s) as [H1 H2]. rewrite <- (read_buf_fst id pick blen bcap), Hstep in H1, H2.
+    (eapply TxInv_same; [ | | |exact HI]; auto).
+  - destruct (open_step_fields open_closes_on_closed id s) as (_&_&H1&H2&_). rewrite Hstep in H1, H2.
+    (eapply TxInv_same; [ | | |exact HI]; auto).
   - unfold write_step in Hstep.
     destruct (find_conn id (m_conns s)); [|inversion Hstep; subst; (eapply TxInv_same; [ | | |exact HI]; auto)].
     destruct (c_closed c); [inversion Hstep; subst; (eapply TxInv_same; [ | | |exact HI]; auto)|].
@@ -1162,9 +1294,113 @@ Proof. apply enc_write_sizes_eq. Qed.
 Theorem overflow_prefix ws qlen opened evs id s tr :
   wf_writes ws = true -> nodupN opened = true ->
   run (init_mux (trunk ws) qlen opened) evs = (s, tr) ->
+  late_opened id s = false ->
   prefix (received id tr) (written_frames id ws).
 Proof.
-  intros Hws Hnd Hrun. rewrite <- (firstn_all (trunk ws)) in Hrun.
-  destruct (prefix_all_schedules max_payload_size ws _ qlen opened evs id s tr max_payload_ok Hws Hnd Hrun) as [c Hc].
+  intros Hws Hnd Hrun Hlate. rewrite <- (firstn_all (trunk ws)) in Hrun.
+  destruct (prefix_all_schedules max_payload_size ws _ qlen opened evs id s tr max_payload_ok Hws Hnd Hrun Hlate) as [c Hc].
   exists (queue_in id s ++ c). unfold written_frames. rewrite Hc, <- app_assoc. reflexivity.
 Qed.
+
+(* ------------------------------------------------------------------ *)
+(* ---------- Read and the caller's buffer ---------- *)
+Lemma read_checks_len_ok : read_checks_len = true.
+Proof. reflexivity. Qed.
+
+(* with the guard on the LENGTH: the whole frame within the buffer, or ENOMEM exactly when it does not fit *)
+Theorem read_within_buffer_len blen bcap msg :
+  match deliver_by true blen bcap msg with
+  | ROData n c => n = lenN msg /\ c = msg /\ n <= blen
+  | RONoMem => blen < lenN msg
+  end.
+Proof.
+  unfold deliver_by. destruct (blen <? lenN msg) eqn:E.
+  - now apply N.ltb_lt.
+  - apply N.ltb_ge in E. rewrite (splitN_short blen msg E). cbn [fst]. repeat split. exact E.
+Qed.
+
+Theorem read_within_buffer blen bcap msg :
+  match deliver blen bcap msg with
+  | ROData n c => n = lenN msg /\ c = msg /\ n <= blen
+  | RONoMem => blen < lenN msg
+  end.
+Proof. unfold deliver. rewrite read_checks_len_ok. apply read_within_buffer_len. Qed.
+
+(* with the guard on the CAPACITY the statement is false: a count above the buffer's length, bytes lost *)
+Theorem read_guard_on_capacity_refuted :
+  exists blen bcap msg, blen <= bcap /\
+    match deliver_by false blen bcap msg with
+    | ROData n c => blen < n /\ c <> msg
+    | RONoMem => False
+    end.
+Proof. exists 1, 3, [7; 8]. split; [discriminate|]. cbn. split; [reflexivity|discriminate]. Qed.
+
+Theorem read_buf_step_spec id pick blen bcap s :
+  fst (read_buf_step id pick blen bcap s) = fst (read_step id pick s) /\
+  match snd (read_buf_step id pick blen bcap s) with
+  | RBuf p (ROData n c) => snd (read_step id pick s) = RData p /\ n = lenN p /\ c = p /\ n <= blen
+  | RBuf p RONoMem => snd (read_step id pick s) = RData p /\ blen < lenN p
+  | r => snd (read_step id pick s) = r
+  end.
+Proof.
+  split; [apply read_buf_fst|]. rewrite read_buf_snd.
+  destruct (snd (read_step id pick s)) eqn:E; try reflexivity.
+  - pose proof (read_within_buffer blen bcap p) as H. destruct (deliver blen bcap p); [|split; [reflexivity|exact H]].
+    destruct H as (H1&H2&H3). repeat split; assumption.
+  - exfalso. eapply read_step_not_buf; eauto.
+Qed.
+
+Lemma delivered_app id a b : delivered id (a ++ b) = delivered id a ++ delivered id b.
+Proof. unfold delivered. apply flat_map_app. Qed.
+
+(* when no Read was handed too short a buffer, what the holder got is, byte for byte, the frames its Reads took *)
+Theorem delivered_is_received mp id : forall evs s s' tr,
+  run_mp mp s evs = (s', tr) -> no_enomem tr = true ->
+  delivered id tr = concat (received id tr).
+Proof.
+  induction evs as [|ev r IH]; intros s s' tr Hrun Hne; cbn [run_mp] in Hrun.
+  - inversion Hrun; subst. reflexivity.
+  - destruct (step_mp mp s ev) as [s1 o] eqn:Es. destruct (run_mp mp s1 r) as [s2 tr2] eqn:Er.
+    inversion Hrun; subst. cbn [no_enomem forallb snd] in Hne. apply andb_true_iff in Hne. destruct Hne as [Ho Hne].
+    change ((ev, o) :: tr2) with ([(ev, o)] ++ tr2). rewrite delivered_app, received_app, concat_app, (IH _ _ _ Er Hne).
+    f_equal. destruct ev; try reflexivity; cbn [step_mp] in Es.
+    + destruct o; try reflexivity. cbn. destruct (id0 =? id); cbn; now rewrite ?app_nil_r.
+    + pose proof (read_buf_step_spec id0 pick blen bcap s) as [_ Hs]. rewrite Es in Hs. cbn [snd] in Hs.
+      destruct o; try reflexivity. destruct o; [|discriminate]. destruct Hs as (_&_&->&_).
+      cbn. destruct (id0 =? id); cbn; now rewrite ?app_nil_r.
+Qed.
+
+(* ---------- Open after the Mux has closed ---------- *)
+Theorem open_after_close_fails mp s id :
+  m_closed s = true -> find_conn id (m_conns s) = None -> id <> reserved_conn_id ->
+  let s1 := fst (step_mp mp s (EvOpen id)) in
+  snd (step_mp mp s (EvOpen id)) = ROk /\ m_closed s1 = true /\
+  (forall pick, exists e, snd (step_mp mp s1 (EvRead id pick)) = RErr e /\ (forall e0, m_err s = Some e0 -> e = e0)) /\
+  (forall pick bl bc, exists e, snd (step_mp mp s1 (EvReadB id pick bl bc)) = RErr e /\ (forall e0, m_err s = Some e0 -> e = e0)) /\
+  (forall buf cut, snd (step_mp mp s1 (EvWrite id buf cut)) = RErr EEOF).
+Proof.
+  intros Hcl Hf Hid. cbn [step_mp]. rewrite open_closes_ok. unfold open_step.
+  apply N.eqb_neq in Hid. rewrite Hid, Hf, Hcl. cbn [fst snd andb].
+  set (c' := mkConn id [] true true true). set (s1 := set_conns (m_conns s ++ [c']) s).
+  assert (Hfind : find_conn id (m_conns s1) = Some c').
+  { unfold s1. cbn [m_conns set_conns]. rewrite find_conn_app, Hf. unfold find_conn. cbn. now rewrite N.eqb_refl. }
+  assert (Hrd : forall pick, exists e, snd (read_step id pick s1) = RErr e /\ (forall e0, m_err s = Some e0 -> e = e0)).
+  { intros pick. unfold read_step. rewrite Hfind. cbn [c_queue c_closed c']. unfold mux_error.
+    change (m_err s1) with (m_err s). destruct (m_err s) as [e|]; cbn [snd].
+    - exists e. split; [reflexivity|]. intros e0 He. now inversion He.
+    - exists EEOF. split; [reflexivity|discriminate]. }
+  split; [reflexivity|]. split; [exact Hcl|]. split; [exact Hrd|]. split.
+  - intros pick bl bc. destruct (Hrd pick) as [e [He1 He2]]. exists e. split; [|exact He2].
+    rewrite read_buf_snd, He1. reflexivity.
+  - intros buf cut. unfold write_step. rewrite Hfind. reflexivity.
+Qed.
+
+(* without the fix (Open does not look at doneC) the connection is open for ever: its Read blocks *)
+Theorem open_after_close_refuted :
+  let '(s, tr) := run_var false max_payload_size (init_mux [] 4 [1]) [EvClose; EvOpen 6; EvRead 6 true] in
+  m_closed s = true /\ map snd tr = [ROk; ROk; RBlock].
+Proof. cbn. split; reflexivity. Qed.
+
+(* the machine of the theorems is the variant with the switch read from the source *)
+Lemma step_var_is_step mp s e : step_var open_closes_on_closed mp s e = step_mp mp s e.
+Proof. destruct e; reflexivity. Qed.
